@@ -824,6 +824,54 @@ pub fn gen_case(family: &str, seed: u64, idx: usize) -> Case {
             }
             mk(runner, db, items)
         }
+        "c03" => {
+            // several managed policies of one run share an as-set whose expansion fails (IRRd answers
+            // D / E / F, or the set does not exist); the others are ordinary
+            let g = GenOpts { ranged_members: false, unknown_names: false, short: idx % 2 == 1 };
+            let mut db = if idx % 3 == 0 { small_db() } else { gen_db(&mut rng, &g) };
+            if db.as_sets.is_empty() {
+                db = small_db();
+            }
+            let names = names_of(&db, g.short);
+            let gone = idx % 4 == 1;
+            let shared = if gone { "AS-GONE".to_string() } else { rng.pick(&db.as_sets).0.clone() };
+            let s = || Expr::AsSet(shared.clone(), Op::None);
+            let k = 2 + rng.below(3);
+            let mut items: Vec<Item> = vec![];
+            for i in 0..k {
+                let e = if i < 2 || rng.chance(1, 3) {
+                    match rng.below(4) {
+                        0 | 1 => s(),
+                        2 => Expr::Or(Box::new(s()), Box::new(gen_lit(&mut rng, g.short))),
+                        _ => Expr::And(Box::new(gen_lit(&mut rng, g.short)), Box::new(s())),
+                    }
+                } else {
+                    // no NOT here: complementing is exponential in the prefix length (known finding of C11)
+                    let mut e = gen_expr(&mut rng, &names, 2, false, false);
+                    for _ in 0..8 {
+                        let mut has_not = false;
+                        e.walk(&mut |x| has_not |= matches!(x, Expr::Not(_)));
+                        if !has_not {
+                            break;
+                        }
+                        e = gen_expr(&mut rng, &names, 1, false, false);
+                    }
+                    let mut has_not = false;
+                    e.walk(&mut |x| has_not |= matches!(x, Expr::Not(_)));
+                    if has_not { gen_lit(&mut rng, g.short) } else { e }
+                };
+                items.push(item(&format!("p{i}"), e));
+            }
+            rng.shuffle(&mut items);
+            if !gone {
+                let kind = *rng.pick(&['D', 'E', 'F']);
+                let f = vec![Fault { sel: FSel::Query(format!("a{shared}")), kind }];
+                for it in items.iter_mut() {
+                    it.faults = f.clone();
+                }
+            }
+            mk(Runner::Agent, db, items)
+        }
         _ => panic!("unknown family {family}"),
     }
 }
@@ -1201,6 +1249,26 @@ pub struct Obs {
     pub run: String,
     pub unexpected: Vec<String>,
     pub note: String,
+    /// family c03: names of the policy-statements the planned loads touch (or the plan's error)
+    pub touched: Option<Result<Vec<String>, String>>,
+}
+
+/// the policy-statement names a list of load payloads touches
+fn touched_names(payloads: &[String]) -> Vec<String> {
+    let mut v = vec![];
+    for p in payloads {
+        let mut rest = p.as_str();
+        while let Some(i) = rest.find("<policy-statement") {
+            rest = &rest[i..];
+            let Some(a) = rest.find("<name>") else { break };
+            let Some(b) = rest[a..].find("</name>") else { break };
+            v.push(rest[a + 6..a + b].to_string());
+            rest = &rest[a + b..];
+        }
+    }
+    v.sort();
+    v.dedup();
+    v
 }
 
 fn run_lib(case: &Case, fake: &FakeIrrd, texts: &[String], probes: &[Pfx]) -> Obs {
@@ -1327,6 +1395,33 @@ fn run_agent(case: &Case, fake: &FakeIrrd, texts: &[String], probes: &[Pfx]) -> 
                     }
                 })
                 .collect();
+            if case.family == "c03" {
+                // every candidate is installed (with ranges no evaluation here yields), plus one
+                // policy that is not managed: what does the run load?
+                use crate::plan::{real_plan, JPolicy, JTerm, Range};
+                let r4 = Range { v6: false, addr: u32::from_be_bytes([203, 0, 113, 0]) as u128, len: 25, lo: 25, hi: 32 };
+                let r6 = Range { v6: true, addr: 0x2001_0db8_ffff_0000_0000_0000_0000_0000u128, len: 48, lo: 48, hi: 128 };
+                let pol = |name: &str| JPolicy {
+                    name: name.into(),
+                    comment: None,
+                    terms: vec![
+                        JTerm { name: "inet".into(), family: Some("inet".into()), filters: vec![r4.clone()], accept: true },
+                        JTerm { name: "inet6".into(), family: Some("inet6".into()), filters: vec![r6.clone()], accept: true },
+                    ],
+                    reject: true,
+                };
+                let mut cfg: Vec<JPolicy> = case.items.iter().map(|i| pol(&i.name)).collect();
+                cfg.push(pol("stale"));
+                // the facade takes ranges in `FromStr` syntax, `evaluate` shows them in `Display` syntax
+                let conv = |v: &[String], six: bool| -> Vec<String> {
+                    v.iter().map(|s| crate::plan::parse_display(s, six).map(|r| crate::plan::fromstr_syntax(&r)).unwrap_or_else(|| s.clone())).collect()
+                };
+                let ev: Vec<_> = v
+                    .iter()
+                    .map(|(n, e, r)| (n.clone(), e.clone(), r.as_ref().map(|(a, b)| (conv(a, false), conv(b, true)))))
+                    .collect();
+                obs.touched = Some(real_plan(&cfg, &ev).map(|p| touched_names(&p)));
+            }
             format!("done {}", if outs.is_empty() { ".".into() } else { outs.join(",") })
         }
         Ok(Err(e)) => format!("error={}", hexs(&e)),
@@ -1366,7 +1461,7 @@ fn build_bgpfu(sink: &mut Sink) -> bool {
 }
 
 pub fn main(opts: &Opts) {
-    let family = opts.extra.iter().find(|e| ["c11", "c17", "c15"].contains(&e.as_str())).cloned().unwrap_or_else(|| "c11".into());
+    let family = opts.extra.iter().find(|e| ["c11", "c17", "c15", "c03"].contains(&e.as_str())).cloned().unwrap_or_else(|| "c11".into());
     let cfg = opts
         .extra
         .iter()
@@ -1406,7 +1501,7 @@ pub fn main(opts: &Opts) {
                 let parts: Vec<&str> = head.split('/').collect();
                 if parts.len() == 3 {
                     if let (Ok(seed), Ok(idx)) = (parts[1].parse::<u64>(), parts[2].parse::<usize>()) {
-                        if ["c11", "c17", "c15"].contains(&parts[0]) {
+                        if ["c11", "c17", "c15", "c03"].contains(&parts[0]) {
                             cases.push(gen_case(parts[0], seed, idx));
                         }
                         if parts[0] == "c11p" {
@@ -1423,6 +1518,7 @@ pub fn main(opts: &Opts) {
             ("c17", false) => 150,
             ("c17", true) => 1200,
             ("c15", false) => 120,
+            ("c03", false) => 120,
             (_, _) => 900,
         };
         for idx in 0..n {
@@ -1505,6 +1601,13 @@ pub fn main(opts: &Opts) {
         (j.case, j.texts, j.probes, obs)
     });
 
+    // family c03: the model's verdict on which candidates cannot be evaluated
+    let c03_lines: Vec<String> = results
+        .iter()
+        .filter(|(c, ..)| c.family == "c03")
+        .map(|(c, _, pr, _)| format!("irr evalall {cfg} {} {FUEL} {} {}", c.db.tok(), c.cands_tok(), probes_tok(pr)))
+        .collect();
+    let mut c03_model = modeld(&c03_lines).into_iter();
     for (case, texts, probes, obs) in results {
         let d = case.descr();
         let db = case.db.tok();
@@ -1592,6 +1695,30 @@ pub fn main(opts: &Opts) {
                         } else {
                             sink.direct(&d, format!("violation agent-evaluate-{}", obs.run.split(' ').next().unwrap_or("")));
                         }
+                    }
+                    "c03" => {
+                        sink.spec(&d, format!("irr spec15 {db} {FUEL} {} {pt} {}", case.cands_tok(), obs.run));
+                        let model = c03_model.next().unwrap_or_default();
+                        // candidates the model cannot evaluate (IRR error): the run must not touch them
+                        let failing: Vec<String> = model
+                            .strip_prefix("done ")
+                            .map(|r| r.split(',').filter_map(|x| x.split_once('=')).filter(|(_, o)| *o == "none").map(|(n, _)| n.to_string()).collect())
+                            .unwrap_or_default();
+                        sink.count(&format!("c03.failing.{}", failing.len().min(4)));
+                        let verdict = match (&obs.touched, model.starts_with("done ")) {
+                            (_, false) => format!("violation model-run-{}", model.split(' ').next().unwrap_or("")),
+                            (None, _) => format!("violation agent-evaluate-{}", obs.run.split([' ', '=']).next().unwrap_or("")),
+                            (Some(Err(e)), _) => format!("violation plan-failed-{}", hexs(e)),
+                            (Some(Ok(t)), _) => {
+                                let hit: Vec<&String> = failing.iter().filter(|n| t.contains(n)).collect();
+                                if hit.is_empty() {
+                                    if !t.iter().any(|n| n == "stale") { "violation unmanaged-not-deleted".to_string() } else { "ok".to_string() }
+                                } else {
+                                    "violation failed-evaluation-causes-update".to_string()
+                                }
+                            }
+                        };
+                        sink.direct(&d, verdict);
                     }
                     _ => sink.spec(&d, format!("irr spec15 {db} {FUEL} {} {pt} {}", case.cands_tok(), obs.run)),
                 }
